@@ -39,6 +39,7 @@ FIXED = [
  ("F27","C07","GN/LM.step with a frozen parameter","fix: GN/LM with frozen","model with a requires_grad=False parameter made step() raise (Jacobian columns vs split sizes); update_parameter paired steps with the unfiltered parameter list"),
  ("F28","C04","RxSO3.AdjT backward under vmap (modjac vectorize=True)","fix: RxSO3 AdjT","in-place fill of a fresh matrix with a batched tensor: modjac(vectorize=True) / default GN, LM raised for models with RxSO3 AdjT (also C07)"),
  ("F29","C15","NLS.set_refpoint() (t=None)","fix: NLS.set_refpoint","reference time aliased the live system-time buffer: A,B,C,D silently moved to later times while the reference state/input/f/g stayed"),
+ ("F31","C20","optim.scheduler.StopOnPlateau.state_dict / load_state_dict","fix: scheduler state_dict","state_dict() carried the continual wrapper bound to the saved scheduler: a scheduler restored with load_state_dict reported the saved scheduler's state (stopped without any documented condition, or never stopped)"),
  ("F30","C20","utils.ReduceToBason.step (loss tensor reused in place)","fix: ReduceToBason keeps","the caller's loss tensor was stored by reference: with one loss buffer overwritten in place every iteration each loss was compared with itself, the patience counter ran up and the loop stopped after patience+1 steps although the loss kept decreasing"),
 ]
 KNOWN = [
